@@ -4,7 +4,8 @@
 set -u
 ID="$1"; K="$2"; shift 2
 CHECKS="${*:-$ID}"
-SRC="/tmp/seed_out/$ID/$K"
+SRC="${SEED_ROOT:-/tmp/seed_out}/$ID/$K"
+TAG="${SEED_TAG:-}"
 W="$(mktemp -d /tmp/svseed.XXXXXX)"
 cleanup() { git -C /repo worktree remove --force "$W/wt" >/dev/null 2>&1; rm -rf "$W"; }
 trap cleanup EXIT
@@ -28,13 +29,14 @@ done
 echo "$ID-$K tests: $TESTS | demo clean=$DEMO_CLEAN patched=$DEMO_PATCHED"
 case "$TESTS" in *failed*|*error*) echo "REJECTED $ID-$K (test suite fails)"; exit 1;; esac
 if [ "$DEMO_CLEAN" != 0 ] || [ "$DEMO_PATCHED" = 0 ]; then echo "REJECTED $ID-$K (demo does not discriminate)"; exit 1; fi
-D="/verif/seeded/$ID-$K"; mkdir -p "$D"
+D="/verif/seeded/$ID-$TAG$K"; mkdir -p "$D"
 cp "$W/patch.diff" "$D/patch.diff"; cp "$SRC/demo.py" "$D/demo.py"; cp "$SRC/notes.md" "$D/notes.md" 2>/dev/null
 /venv/bin/python - "$D" "$ID" "$K" "$TESTS" "$DEMO_CLEAN" "$DEMO_PATCHED" "[${RES%,}]" <<'PY'
 import json, sys, subprocess
 d, pid, k, tests, dc, dp, res = sys.argv[1:8]
 notes = open(d + '/notes.md').read() if __import__('os').path.exists(d + '/notes.md') else ''
-meta = {"property": pid, "seed": f"{pid}-{k}", "origin": "fresh sub-agent given only the property text and a scratch worktree",
+import os
+meta = {"property": pid, "seed": os.path.basename(d), "origin": "fresh sub-agent given only the property text and a scratch worktree",
         "needs_to_manifest": notes.strip()[:1500],
         "confirmed": {"repo_head": subprocess.check_output(['git', '-C', '/repo', 'rev-parse', '--short', 'HEAD']).decode().strip(),
                       "pytest_with_change": tests, "demo_exit_unchanged": int(dc), "demo_exit_with_change": int(dp),
@@ -42,4 +44,4 @@ meta = {"property": pid, "seed": f"{pid}-{k}", "origin": "fresh sub-agent given 
         "checks": json.loads(res)}
 json.dump(meta, open(d + '/meta.json', 'w'), indent=1)
 PY
-echo "KEPT $ID-$K"
+echo "KEPT $ID-$TAG$K"
